@@ -150,3 +150,43 @@ def reflect(model):
         c["loc"] = "%s:%s" % (c["path"], c.get("lineno"))
     _CACHE[root] = data
     return data
+
+
+VALUE_CHILD = r'''
+import sys, json, importlib, warnings, os
+warnings.simplefilter("ignore")
+root, modname, name = sys.argv[1:4]
+sys.path.insert(0, os.path.join(root, "src"))
+import saml2_tophat
+assert os.path.realpath(saml2_tophat.__file__).startswith(os.path.realpath(root))
+mod = importlib.import_module(modname)
+val = getattr(mod, name)
+def enc(v):
+    if isinstance(v, type):
+        return {"class": "%s.%s" % (v.__module__, v.__name__)}
+    if isinstance(v, (str, int, float, bool)) or v is None:
+        return v
+    return {"repr": repr(v)[:200]}
+if isinstance(val, dict):
+    out = {"kind": "dict", "items": [[enc(k), enc(v)] for k, v in val.items()]}
+elif isinstance(val, (list, tuple, set, frozenset)):
+    out = {"kind": "seq", "items": [enc(v) for v in val]}
+else:
+    out = {"kind": "scalar", "value": enc(val)}
+json.dump(out, sys.stdout)
+'''
+
+
+def reflect_value(model, module, name, python=None):
+    """The value a module-level name has after import (module top level only),
+    for tables that are no longer written as a literal.  Keys/values that are
+    classes come back as {"class": qualified name}."""
+    py = python or sys.executable
+    p = subprocess.run([py, "-W", "ignore", "-c", VALUE_CHILD, model.root,
+                        module, name], capture_output=True, text=True,
+                       timeout=120,
+                       env=dict(os.environ, PYTHONDONTWRITEBYTECODE="1"))
+    if p.returncode != 0:
+        raise AnalysisError("cannot reflect %s.%s: %s" % (
+            module, name, (p.stderr or "").strip().splitlines()[-1:]))
+    return json.loads(p.stdout)
